@@ -106,6 +106,35 @@ for s in SPECS:
     if getattr(s, 'name', '') == 'write_type_and_length':
         s.rules = [(r'static_cast<uint(16|32|64)_t>\(length\)', r'(uint\1_t)(length)', 3)] + list(s.rules)
 
+BIGNUM_CONTRACT = [
+    ('requires', 'vx_sink_n == 0 && vx_tags == 0'),
+    ('assigns', 'vx_sink_n, __CPROVER_object_whole(vx_sink), __CPROVER_object_whole(vx_exp), vx_tags, vx_tag'),
+    ('ensures', '[C06][C08] a big number is written as tag 2 (non-negative) or tag 3 (negative) ...', 'vx_tags == 1 && vx_tag == (vx_is_neg ? 3 : 2)'),
+    ('ensures', '[C06][C08] ... followed by a byte-string head (major type 2) that denotes exactly the number of magnitude bytes, in the RFC 8949 preferred form: length',
+     'vx_sink_n == (size_t)spec_cbor_head(2, vx_len, vx_exp)'),
+    ('ensures', '[C06][C08] ... and content (byte 0..8)', ' && '.join('(vx_sink_n > %d ==> vx_sink[%d] == vx_exp[%d])' % (i, i, i) for i in range(9))),
+]
+INT_W_CONTRACT = lambda signed: [
+    ('requires', 'vx_sink_n == 0'),
+    ('assigns', 'vx_sink_n, __CPROVER_object_whole(vx_sink), __CPROVER_object_whole(vx_exp)'),
+    ('ensures', '[C06][C08] an integer is written as major type 0 with argument v (v >= 0) or major type 1 with argument -1-v (v < 0), preferred (shortest) form: length',
+     'vx_sink_n == (size_t)spec_cbor_head(%s, vx_exp)' % ('(value < 0 ? 1 : 0), (value < 0 ? (uint64_t)(-1 - value) : (uint64_t)value)' if signed else '0, value')),
+    ('ensures', '[C06][C08] ... and content', ' && '.join('(vx_sink_n > %d ==> vx_sink[%d] == vx_exp[%d])' % (i, i, i) for i in range(9))),
+]
+SPECS += [
+    FuncSpec('write_bignum_head', E, r'void write_bignum\(bigint& n\)', count=1, csig='void write_bignum_head(void)', contract=BIGNUM_CONTRACT,
+             rules=[# program slice: the bigint part (sign handling, write_bytes_be) is not under contract; what is verified is the head written for its byte length
+                    (r'\A.*?std::size_t length = data\.size\(\);', 'bool is_neg = vx_is_neg; size_t length = vx_len;', 1),
+                    (r'write_tag\((2|3)\);', r'vx_write_tag(\1);', 2),
+                    (r'static_cast<uint(8|16|32|64)_t>\(0x(4|5)([0-9a-b]) \+ length\)', r'(uint\1_t)(0x\2\3 + length)', 1),
+                    (r'binary::native_to_big\(static_cast<uint8_t>\(([^,]+?)\),\s*std::back_inserter\(sink_\)\)', r'vx_sink_push((uint8_t)(\1))', 5),
+                    (r'binary::native_to_big\(\(uint8_t\)\(([^;]+?)\),\s*std::back_inserter\(sink_\)\)', r'vx_sink_push((uint8_t)(\1))', 1),
+                    (r'binary::native_to_big\(static_cast<uint(16|32|64)_t>\(length\),\s*std::back_inserter\(sink_\)\)', r'native_to_big_u\1((uint\1_t)(length))', 3),
+                    (r'uint64_t\(length\)', '(uint64_t)(length)', 1),
+                    (r'for \(auto c : data\)\s*\{\s*sink_\.push_back\(c\);\s*\}', 'VX_PAYLOAD(length);', 1)]),
+    FuncSpec('write_uint64_value', E, r'void write_uint64_value\(uint64_t value\)', count=1, csig='void write_uint64_value(uint64_t value)', contract=INT_W_CONTRACT(False)),
+    FuncSpec('write_int64_value', E, r'void write_int64_value\(int64_t value\)', count=1, csig='void write_int64_value(int64_t value)', contract=INT_W_CONTRACT(True)),
+]
 GROUPS = {'binary': cs.binary_group()}
 
 SAFE = ['C05']
@@ -113,6 +142,9 @@ HARNESSES = [
     Harness('read_uint64', 'h_read_uint64', enforce='read_uint64', method='LF', props=['C07', 'C06', 'C05', 'C03'], unwind=9),
     Harness('read_int64', 'h_read_int64', enforce='read_int64', method='LF', props=['C07', 'C06', 'C05', 'C03'], unwind=9),
     Harness('write_type_and_length', 'h_write', enforce='write_type_and_length', method='LF', props=['C06', 'C08', 'C05'], unwind=9),
+    Harness('write_bignum_head', 'h_bignum_head', enforce='write_bignum_head', method='LF', props=['C06', 'C08'], unwind=9),
+    Harness('write_uint64_value', 'h_write_u64', enforce='write_uint64_value', replace=['write_type_and_length'], method='LF', props=['C06', 'C08'], unwind=9),
+    Harness('write_int64_value', 'h_write_i64', enforce='write_int64_value', replace=['write_type_and_length'], method='LF', props=['C06', 'C08'], unwind=9),
     Harness('lemma_roundtrip', 'h_roundtrip', enforce=None, method='LF', props=['C06'], unwind=9, dfcc=False,
             note='L-CBOR-RT: read_uint64(write_type_and_length(m,x)) == x for all m,x over the real extracted bodies'),
     Harness('byte_swap', 'h_byte_swap', enforce=None, method='LF', props=['C06', 'C07'], dfcc=False,
